@@ -53,7 +53,7 @@ pub fn run(ctx: &Ctx) -> Outcome {
         first_fin.map(|k0| w.k >= k0).unwrap_or(false) && w.ptype != 4
     };
     // (1) close orders x loss of subsets of the closing packets, 3 cycles with a connection limit of 1
-    let scenarios: Vec<Scenario> = vec![lib::a2b_bulk(), lib::drop_close(), lib::fin_behind_data(), lib::both_ways(), lib::ping_pong(), lib::idle_shutdown(), lib::early_shutdown()];
+    let scenarios: Vec<Scenario> = vec![lib::a2b_bulk(), lib::drop_close(), lib::fin_behind_data(), lib::both_ways(), lib::ping_pong(), lib::idle_shutdown(), lib::early_shutdown(), lib::acceptor_closes_first()];
     let n = scenarios.len();
     for base_scn in scenarios.iter().take(n) {
         let scn = prepare(base_scn.clone(), 1, 3);
@@ -258,6 +258,8 @@ fn silent_peer(ctx: &Ctx) -> Outcome {
         st(AckSpec::All, WndSpec::Bytes(5)),
         st(AckSpec::Plus(1), WndSpec::Bytes(0)),
         st(AckSpec::Cur, WndSpec::Default),
+        Act::Deliver(Pkt::Fin { off: 0, ack: AckSpec::All }),
+        Act::Deliver(Pkt::Fin { off: 0, ack: AckSpec::Cur }),
         Act::Tick,
         Act::Sleep(13_000),
     ];
@@ -309,6 +311,7 @@ fn silent_peer(ctx: &Ctx) -> Outcome {
                 let what = match ob {
                     Some(o) if o.tx_segments > 0 => "queued-segment-and-no-timer",
                     Some(o) if o.tx_ring_len > 0 => "uncut-bytes-behind-a-closed-window-and-no-timer",
+                    Some(o) if o.state != "established" && o.timers[1].is_none() => "closing-state-with-no-inactivity-or-final-chance-timer",
                     _ => "other",
                 };
                 Some((
@@ -335,7 +338,7 @@ fn silent_peer(ctx: &Ctx) -> Outcome {
     }
     part.distinct_nontrivial = classes.len() as u64;
     part.distinct_outcomes = classes.len() as u64;
-    part.bound = format!("all sequences of <= {depth} actions over [write 40 B into a 20 B peer window, drop writer, drop reader, ACK-all wnd 0, ACK-all wnd 5, ACK+1 wnd 0, duplicate ACK, timer] that drop both halves, each followed by 13 s without any packet from the peer; outcome classes = time from letting go to the end of the connection in 0.5 s buckets");
+    part.bound = format!("all sequences of <= {depth} actions over [write 40 B into a 20 B peer window, drop writer, drop reader, ACK-all wnd 0, ACK-all wnd 5, ACK+1 wnd 0, duplicate ACK, the peer's FIN (acknowledging everything / nothing new), timer] that drop both halves, each followed by 13 s without any packet from the peer; outcome classes = time from letting go to the end of the connection in 0.5 s buckets");
     part.samples.push(json!({"history": [0, 7, 1, 2, 3, 8]}));
     out.parts.push(part);
     out
